@@ -299,88 +299,108 @@ func runC15(c *Ctx, r *Report) {
 			ld, ok := v.(*ssa.UnOp)
 			return ok && g != nil && ld.X == g.(ssa.Value)
 		}
-		for _, rc := range callsIn(nextToken, readString) {
-			okv := extractOf(rc.(*ssa.Call), 1)
-			good := false
-			endInFileMode := ""
-			if okv != nil {
-				for _, ref := range *okv.Referrers() {
-					ifi, ok := ref.(*ssa.If)
-					if !ok {
-						continue
-					}
-					fb := ifi.Block().Succs[1]
-					// the returns of the failed-read region
-					for _, b := range nextToken.Blocks {
-						if !(b == fb || (len(fb.Preds) == 1 && fb.Dominates(b))) {
-							continue
-						}
-						ret, ok := b.Instrs[len(b.Instrs)-1].(*ssa.Return)
-						if !ok {
-							continue
-						}
-						v := retVal(ret, 0)
-						if call, ok := v.(*ssa.Call); ok && isCallTo(call, eoleofFn) {
-							// the old form: end marker in both modes
-							good = true
-							endInFileMode = c.Pos(ret.Pos())
-							continue
-						}
-						if isLoadOf(v, eofT) {
-							endInFileMode = c.Pos(ret.Pos())
-							continue
-						}
-						if isLoadOf(v, eolT) {
-							// only in line mode, and the open string is remembered for the parser
-							inLine := false
-							for _, cc := range controlling(b) {
-								if ld, ok := cc.Cond.(*ssa.UnOp); ok && isFieldAddrOf(ld.X, lexT, "lineMode") && cc.Edge == 0 {
-									inLine = true
-								}
-							}
-							noted := false
-							for _, in := range b.Instrs {
-								if st, ok := in.(*ssa.Store); ok && isFieldAddrOf(st.Addr, lexT, "openString") {
-									if k, ok := st.Val.(*ssa.Const); ok && k.Value != nil && k.Value.ExactString() == "true" {
-										noted = true
-									}
-								}
-							}
-							if inLine && noted {
-								good = true
-							}
-						}
-					}
+		// NextToken itself, or the method whose token NextToken returns as is (the string case moved out)
+		holders := []*ssa.Function{nextToken}
+		eachInstr(nextToken, func(in ssa.Instruction) {
+			call, ok := in.(*ssa.Call)
+			if !ok {
+				return
+			}
+			h := call.Common().StaticCallee()
+			if h == nil || h.Pkg != nextToken.Pkg || len(h.Blocks) == 0 || len(callsIn(h, readString)) == 0 {
+				return
+			}
+			for _, ref := range *call.Referrers() {
+				if _, isRet := ref.(*ssa.Return); isRet {
+					holders = append(holders, h)
+					return
 				}
 			}
-			r.Check(endInFileMode == "", "C16.R5", ssaFuncName(nextToken), "an unterminated string is not the end marker in file mode", c.Pos(rc.Pos()),
-				"where readString reports a missing closing quote NextToken returns the end-of-file marker ("+endInFileMode+"): the rest of the script is silently dropped, no error, exit 0")
-			r.Check(good, "C15.R3", ssaFuncName(nextToken), "in line mode an unterminated string yields EOL and is remembered", c.Pos(rc.Pos()), "where readString reports a missing closing quote NextToken does not return the EOL token under the lineMode test after noting the open string (or the end marker in both modes): line mode cannot ask for the rest of the string")
-			// the parser turns the open string into a continuation request
-			{
-				pp := c.SSAFn(c.Fn("parser", "Parser.ParseProgram"))
-				open := c.FnOpt("lexer", "Lexer.OpenString")
-				parT := c.TypeNamed("parser", "Parser")
-				asks := false
-				if open != nil {
-					for _, oc := range callsIn(pp, open) {
-						ocv, ok := oc.(*ssa.Call)
+		})
+		for _, nextToken := range holders {
+			for _, rc := range callsIn(nextToken, readString) {
+				okv := extractOf(rc.(*ssa.Call), 1)
+				good := false
+				endInFileMode := ""
+				if okv != nil {
+					for _, ref := range *okv.Referrers() {
+						ifi, ok := ref.(*ssa.If)
 						if !ok {
 							continue
 						}
-						for _, ref := range *ocv.Referrers() {
-							if ifi, ok := ref.(*ssa.If); ok {
-								for _, in := range ifi.Block().Succs[0].Instrs {
-									if st, ok := in.(*ssa.Store); ok && isFieldAddrOf(st.Addr, parT, "continuationNeeded") {
-										asks = true
+						fb := ifi.Block().Succs[1]
+						// the returns of the failed-read region
+						for _, b := range nextToken.Blocks {
+							if !(b == fb || (len(fb.Preds) == 1 && fb.Dominates(b))) {
+								continue
+							}
+							ret, ok := b.Instrs[len(b.Instrs)-1].(*ssa.Return)
+							if !ok {
+								continue
+							}
+							v := retVal(ret, 0)
+							if call, ok := v.(*ssa.Call); ok && isCallTo(call, eoleofFn) {
+								// the old form: end marker in both modes
+								good = true
+								endInFileMode = c.Pos(ret.Pos())
+								continue
+							}
+							if isLoadOf(v, eofT) {
+								endInFileMode = c.Pos(ret.Pos())
+								continue
+							}
+							if isLoadOf(v, eolT) {
+								// only in line mode, and the open string is remembered for the parser
+								inLine := false
+								for _, cc := range controlling(b) {
+									if ld, ok := cc.Cond.(*ssa.UnOp); ok && isFieldAddrOf(ld.X, lexT, "lineMode") && cc.Edge == 0 {
+										inLine = true
 									}
+								}
+								noted := false
+								for _, in := range b.Instrs {
+									if st, ok := in.(*ssa.Store); ok && isFieldAddrOf(st.Addr, lexT, "openString") {
+										if k, ok := st.Val.(*ssa.Const); ok && k.Value != nil && k.Value.ExactString() == "true" {
+											noted = true
+										}
+									}
+								}
+								if inLine && noted {
+									good = true
 								}
 							}
 						}
 					}
 				}
-				r.Check(asks || endInFileMode != "", "C15.R3", ssaFuncName(pp), "an input that ends inside a string asks for more", c.Pos(pp.Pos()),
-					"ParseProgram does not turn Lexer.OpenString() into a continuation request: a statement that starts with an unterminated string is silently accepted in line mode")
+				r.Check(endInFileMode == "", "C16.R5", ssaFuncName(nextToken), "an unterminated string is not the end marker in file mode", c.Pos(rc.Pos()),
+					"where readString reports a missing closing quote NextToken returns the end-of-file marker ("+endInFileMode+"): the rest of the script is silently dropped, no error, exit 0")
+				r.Check(good, "C15.R3", ssaFuncName(nextToken), "in line mode an unterminated string yields EOL and is remembered", c.Pos(rc.Pos()), "where readString reports a missing closing quote NextToken does not return the EOL token under the lineMode test after noting the open string (or the end marker in both modes): line mode cannot ask for the rest of the string")
+				// the parser turns the open string into a continuation request
+				{
+					pp := c.SSAFn(c.Fn("parser", "Parser.ParseProgram"))
+					open := c.FnOpt("lexer", "Lexer.OpenString")
+					parT := c.TypeNamed("parser", "Parser")
+					asks := false
+					if open != nil {
+						for _, oc := range callsIn(pp, open) {
+							ocv, ok := oc.(*ssa.Call)
+							if !ok {
+								continue
+							}
+							for _, ref := range *ocv.Referrers() {
+								if ifi, ok := ref.(*ssa.If); ok {
+									for _, in := range ifi.Block().Succs[0].Instrs {
+										if st, ok := in.(*ssa.Store); ok && isFieldAddrOf(st.Addr, parT, "continuationNeeded") {
+											asks = true
+										}
+									}
+								}
+							}
+						}
+					}
+					r.Check(asks || endInFileMode != "", "C15.R3", ssaFuncName(pp), "an input that ends inside a string asks for more", c.Pos(pp.Pos()),
+						"ParseProgram does not turn Lexer.OpenString() into a continuation request: a statement that starts with an unterminated string is silently accepted in line mode")
+				}
 			}
 		}
 		ef := c.SSAFn(eoleofFn)
